@@ -101,7 +101,13 @@ pub(crate) fn resolve_stroke(
     let width = node.resolve_valid_length(AId::StrokeWidth, state, 1.0)?;
 
     // Must be bigger than 1.
-    let miterlimit = node.find_attribute(AId::StrokeMiterlimit).unwrap_or(4.0);
+    let miterlimit: f32 = node.find_attribute(AId::StrokeMiterlimit).unwrap_or(4.0);
+    // A value that doesn't fit into f32 is invalid. Fallback to the default one.
+    let miterlimit = if miterlimit.is_finite() {
+        miterlimit
+    } else {
+        4.0
+    };
     let miterlimit = if miterlimit < 1.0 { 1.0 } else { miterlimit };
     let miterlimit = StrokeMiterlimit::new(miterlimit);
 
@@ -246,7 +252,8 @@ fn conv_dasharray(node: SvgNode, state: &converter::State) -> Option<Vec<f32>> {
     let list = super::units::convert_list(node, AId::StrokeDasharray, state)?;
 
     // `A negative value is an error`
-    if list.iter().any(|n| n.is_sign_negative()) {
+    // And so is a value that doesn't fit into f32.
+    if list.iter().any(|n| n.is_sign_negative() || !n.is_finite()) {
         return None;
     }
 
